@@ -125,7 +125,7 @@ Proof.
   - apply (HoldW_same w); auto.
   - (* a source generates its next part *)
     apply HoldW_updd; [intro y; split; reflexivity|].
-    assert (GE : f_devs (fst (generate w d)) = f_devs w /\ f_rm (fst (generate w d)) = f_rm w) by (unfold generate; destruct (_ <=? 0); split; reflexivity).
+    assert (GE : f_devs (fst (generate w d)) = f_devs w /\ f_rm (fst (generate w d)) = f_rm w) by (unfold generate; destruct (_ =? 0); split; reflexivity).
     destruct GE as [GD GR]. apply (HoldW_same w); auto; rewrite GR; auto.
   - apply (HoldW_same w); auto.
   - (* a quiet manager call *)
